@@ -14,6 +14,7 @@ import (
 	"github.com/TimothyStiles/poly"
 	"pgregory.net/rapid"
 	"verifharness/internal/ref"
+	"verifharness/internal/vk"
 )
 
 type Node struct {
@@ -261,11 +262,21 @@ func Draw(t *rapid.T, name string, n, maxDepth int) Node {
 	return draw(t, name, n, maxDepth, true)
 }
 
+// drawPos draws a coordinate in [lo, hi]; on long parents one in four is an edge value (a power of
+// two or ten, a multiple of 1024 or of a line width, an end of the range, each +-1).
+func drawPos(t *rapid.T, name string, lo, hi int) int {
+	if hi-lo > 64 && rapid.IntRange(0, 3).Draw(t, name+"_edge") == 0 {
+		e := vk.EdgeSizes(lo, hi)
+		return e[rapid.IntRange(0, len(e)-1).Draw(t, name+"_edge_index")]
+	}
+	return rapid.IntRange(lo, hi).Draw(t, name)
+}
+
 func drawLeaf(t *rapid.T, name string, n int) Node {
 	if rapid.IntRange(0, 4).Draw(t, name+"_single") == 0 {
-		return Single(rapid.IntRange(1, n).Draw(t, name+"_pos"))
+		return Single(drawPos(t, name+"_pos", 1, n))
 	}
-	a := rapid.IntRange(1, n).Draw(t, name+"_start")
+	a := drawPos(t, name+"_start", 1, n)
 	// ends biased to the parent's end and to short spans
 	var b int
 	switch rapid.IntRange(0, 3).Draw(t, name+"_end_kind") {
@@ -274,7 +285,7 @@ func drawLeaf(t *rapid.T, name string, n int) Node {
 	case 1:
 		b = min(n, a+rapid.IntRange(0, 12).Draw(t, name+"_short"))
 	default:
-		b = rapid.IntRange(a, n).Draw(t, name+"_end")
+		b = drawPos(t, name+"_end", a, n)
 	}
 	s := Span(a, b)
 	if rapid.IntRange(0, 5).Draw(t, name+"_partial") == 0 {
